@@ -24,8 +24,73 @@ def payload_range(b, term, g):
     return loop_range_of_payload(b, term, g)
 
 
+def closing_test(ctx, g):
+    """Boundary::glue_recursively glues a facet (d, i) through a ridge (d, i, j) only when that closes the 2-orbit WITHOUT branching: the number
+    of ridge pairs chained so far must equal m(i, j, d), counted once if the facet is a mirror (op(i, d) == d) and twice otherwise.
+    Decided by evaluating the test on sampled (count, m, mirror?)."""
+    ctx.clauses.append("a facet is glued through a ridge only if the chained ridge count equals m(i, j, d) * (1 for a mirror facet, 2 otherwise) (T3, test evaluated on samples)")
+    b = ctx.body("fundamental_group::Boundary::<'a, T>::glue_recursively")
+    me = ("param", 1, b.debug.get(1, ""))
+    sites = list(b.calls("is_some_and"))
+    ctx.floor("closing tests in glue_recursively", len(sites), 1)
+    for bi, t in sites[:1]:
+        recv = strip(norm(b.origin(t["args"][0]), g))
+        res = closure_result(ctx.facts, b.origin(t["args"][1]), g)
+        okrecv = is_call(recv, "::opposite") and strip(recv[2][0]) == me
+        if not okrecv or res is None:
+            ctx.ob("T3-closing-test", b.name, "opposite(d, i, j).is_some_and(..)", "violation", "the closing test is not applied to self.opposite(d, i, j)", b.span_of(bi))
+            continue
+        d_, i_, j_ = [strip(x) for x in recv[2][1:4]]
+        res = strip(res)
+        keep_ = tuple(x for x in subterms(recv) if x[0] == "local")
+        res = expand_single_defs(b, res, g, keep=keep_)
+        # leaves: the count n = (closure element).1, m(ds, i, j, d).unwrap_or(0), the mirror factor t (a local with two definitions)
+        n_t = ("field", ("param", 2, ""), "1")
+        m_ts = [x for x in subterms(res) if is_call(x, "Option::<T>::unwrap_or") and is_call(strip(x[2][0]), "DSet::m")]
+        t_ls = [x for x in subterms(res) if x[0] == "local" and len(b.all_defs_origins(x[1])) == 2]
+        okm = bool(m_ts) and [strip(y) for y in strip(m_ts[0][2][0])[2][1:4]] == [i_, j_, d_] and strip(m_ts[0][2][1]) == ("int", 0)
+        bad = None
+        if not okm or not t_ls:
+            bad = "the test does not compare the chained count with m(i, j, d) and a mirror factor: " + show(res, 1)[:100]
+        else:
+            tl = t_ls[0]
+            tv = {}
+            for dbb, dd in b.all_defs_origins(tl[1]):
+                pol = None
+                for a in b.facts_at(dbb):
+                    a = atom_norm(a, g)
+                    if a[0] == "rel" and a[1] in ("Eq", "Ne"):
+                        l, r = strip(a[2]), strip(a[3])
+                        if is_call(l, "DSet::op") and [strip(y) for y in l[2][1:3]] == [i_, d_] and r[0] == "agg" and r[1].endswith("Option::Some") and strip(r[2][0]) == d_:
+                            pol = a[1] == "Eq"
+                tv[pol] = eval_int(norm(dd, g))
+            if tv != {True: 1, False: 2}:
+                bad = "the mirror factor is %s (keyed by op(i, d) == Some(d)); expected 1 for a mirror facet and 2 otherwise" % tv
+            else:
+                for mirror in (True, False):
+                    for m in (0, 1, 2, 3, 4, 6):
+                        for n in range(0, 14):
+                            got = eval_term_env(res, {n_t: n, m_ts[0]: m, tl: tv[mirror]})
+                            want = int(n == m * (1 if mirror else 2))
+                            if got is None or got != want:
+                                bad = bad or "for chained count %d, m = %d on a %s facet the test is %s, expected %s" % (n, m, "mirror" if mirror else "non-mirror", got, bool(want))
+        ctx.ob("T3-closing-test", b.name, "count == m(i, j, d) * (1 | 2)", "ok" if not bad else "violation",
+               "the ridge chain closes exactly at m(i, j, d) pairs (counted once on a mirror facet, twice otherwise)" if not bad else bad, b.span_of(bi))
+        # `good` gates the gluing
+        gl = list(b.calls("::glue"))
+        gl = [(gb, tt) for gb, tt in gl if tt["callee"].get("def", "").endswith("::glue")]
+        okg = bool(gl)
+        goodl = [l for l, nme in b.debug.items() if nme == "good"]
+        for gb, tt in gl:
+            fa = [atom_norm(a, g) for a in b.facts_at(gb)]
+            if not any(a[0] == "bool" and a[2] is True and a[1][0] == "local" and a[1][1] in goodl for a in fa):
+                okg = False
+        ctx.ob("T3-closing-test", b.name, "glue<-good", "ok" if okg else "violation", "glue() runs only when the test holds (or the facet is a seed without a ridge)" if okg else "glue() is not dominated by `good`")
+
+
 def run(ctx):
     g = ctx.facts.getters()
+    closing_test(ctx, g)
     # (1) reducedness: T1 over the whole crate
     ctx.clauses.append("all returned words are freely reduced (T1, shared with C10)")
     n = t1_write_through(ctx, "T1-write-through", c10.FW, "w", c10.SAN)
